@@ -329,7 +329,7 @@ theorem nextFrameOp_decP (t : TCfg) (r : R) (p : UInt8) (h : P r.dec) : P (nextF
 
 theorem nextFrameInfo_decP (t : TCfg) (r : R) (h : P r.dec) : P (nextFrameInfo cfg t r).1.dec := by
   by_cases h0 : (if r.sub.caf then r.remaining else r.remaining - 1) = 0
-  · rw [nextFrameInfo_end cfg t r h0]; exact h
+  · rw [nextFrameInfo_pend cfg t r h0]; exact h
   · have after : ∀ x : R, P x.dec → P (afterSkip cfg t x).1.dec := by
       intro x hx
       unfold afterSkip
@@ -434,7 +434,7 @@ theorem run_decP (t : TCfg) : ∀ (ops : List Op) (r : R), P r.dec → P (run cf
   intro ops
   induction ops with
   | nil => intro r h; exact h
-  | cons op ops ih => intro r h; rw [run_cons]; exact ih _ (step_decP hP t r op h)
+  | cons op ops ih => intro r h; rw [prun_cons]; exact ih _ (step_decP hP t r op h)
 
 end
 
